@@ -1,5 +1,59 @@
-From Dawn Require Import Pickle.Model.
+(** C15 — Decoding arbitrary bytes yields a value or an error, never a crash.
+
+    [decode unp bs] is the model of pickle.NewDecoder(r, unp).Decode() on the input [bs] (Pickle/Model.v);
+    its outcomes are [Ok (value, heap)], [Err] (an error is returned), [Crash] (the process dies), [NilNil]
+    ((nil, nil) is returned) and [OutOfFuel] (no answer within length+1 steps: a hang).  The unpickler [unp]
+    is ANY function returning a value or an error (a Go runtime error inside it is an error too: Decode's
+    recover converts every panic whose value implements [error]); values of the model are never nil.
+    [lengths_bounded bs] is the property's hypothesis "declared lengths bounded by the input size". *)
+From Dawn Require Import Pickle.Model Pickle.Proofs_C15.
 Open Scope N_scope.
-Theorem pipeline_smoke15 : decode None [opSTOP] = Err.
+
+(** For every unpickler and every byte string the decoder answers within length+1 steps, and never with (nil, nil). *)
+Theorem decode_never_hangs_or_nilnil : forall unp bs,
+    decode unp bs <> OutOfFuel /\ decode unp bs <> NilNil.
+Proof. exact decode_never_hangs_or_nilnil_proof. Qed.
+Print Assumptions decode_never_hangs_or_nilnil.
+
+(** ... and with declared lengths bounded by the input size the answer is an error or a (non-nil) value:
+    never a crash. *)
+Theorem decode_total : forall unp bs,
+    lengths_bounded bs = true ->
+    decode unp bs = Err \/ exists v h, decode unp bs = Ok (v, h).
+Proof. exact decode_total_proof. Qed.
+Print Assumptions decode_total.
+
+(** function.go's envUnpickler: a value (the heap only grows), a returned error, or a Go runtime error
+    (failed unchecked type assertion / index out of range) -- nothing else, in particular never nil. *)
+Theorem env_unpickle_total : forall m n args h,
+    match env_unpickle m n args h with
+    | EOk v h' => (length h <= length h')%nat
+    | EErr => True
+    | EPanic => True
+    end.
+Proof. exact env_unpickle_total_proof. Qed.
+Print Assumptions env_unpickle_total.
+
+(** hence loading a persisted stamp (Decode with envUnpickler) is total *)
+Theorem env_decode_total : forall bs,
+    lengths_bounded bs = true ->
+    decode (Some env_unpickler) bs = Err \/ exists v h, decode (Some env_unpickler) bs = Ok (v, h).
+Proof. exact env_decode_total_proof. Qed.
+Print Assumptions env_decode_total.
+
+(** diffEnv: the reason string is built without an out-of-range index or slice bound for every number of
+    differing keys (0, 1, 2, n) *)
+Theorem reason_total : forall reasons, exists r, reason_of reasons = Ok r.
+Proof. exact reason_total_proof. Qed.
+Print Assumptions reason_total.
+
+Theorem diff_reason_total : forall has, exists r, diff_reason has = Ok r.
+Proof. exact diff_reason_total_proof. Qed.
+Print Assumptions diff_reason_total.
+
+(** the hypothesis is satisfiable and not vacuous *)
+Example lengths_bounded_ex : lengths_bounded [opBINUNICODE; 1; 0; 0; 0; 97; opSTOP] = true.
 Proof. vm_compute. reflexivity. Qed.
-Print Assumptions pipeline_smoke15.
+Example lengths_unbounded_ex : lengths_bounded [opBINUNICODE; 255; 255; 255; 127; 97; opSTOP] = false
+                               /\ decode None [opBINUNICODE; 255; 255; 255; 127; 97; opSTOP] = Crash.
+Proof. vm_compute. split; reflexivity. Qed.
